@@ -13,6 +13,19 @@ def main():
     a = ap.parse_args()
     os.chdir(os.path.dirname(os.path.dirname(os.path.abspath(__file__))))
     from vcommon import MachineryError
+    # last resort: code under test that loops for ever inside a call the drivers do not supervise must not leave the check hanging
+    import faulthandler
+    import threading
+    limit = int(os.environ.get("VERIF_LIMIT_S", "2700" if a.tier == "quick" else "28800"))
+
+    def give_up():
+        sys.stdout.flush()
+        print("MACHINERY-ERROR %s: the check did not finish within %d s; stack of every thread follows" % (a.prop, limit), flush=True)
+        faulthandler.dump_traceback(file=sys.stderr, all_threads=True)
+        os._exit(2)
+    timer = threading.Timer(limit, give_up)
+    timer.daemon = True
+    timer.start()
     try:
         if a.replay:
             import replay
